@@ -62,11 +62,14 @@ def sset(xs):
     return "{" + ", ".join(one(x) for x in xs) + "}"
 
 
-def family_cfg(name, plats=("default", "p1"), sels=("name",), spells=("lower",), interps=(False,), namedD=(), namedP=(), pkgD=(), pkgP=(),
-               creatable=("named@default", "named@p1", "pkg@default", "pkg@p1"), dlists=(), names=("myenv",), paths=("primitive", "replicated")):
+def family_cfg(name, plats=("default", "p1"), sels=("name",), spells=("lower",), interps=("absent",), namedD=(), namedP=(), pkgD=(), pkgP=(),
+               creatable=("named@default", "named@p1", "pkg@default", "pkg@p1"), dlists=(), names=("myenv",), paths=("primitive", "replicated"),
+               sels2=("none",), histlen=0):
     return {"name": name, "text": "CONSTANTS\n  Plats = %s\n  Sels = %s\n  Spells = %s\n  Interps = %s\n  NamedD = %s\n  NamedP = %s\n  PkgD = %s\n  PkgP = %s\n"
-            "  Creatable = %s\n  Names = %s\n  Paths = %s\n  DLists <- MCDLists\n  Family = \"%s\"\n  Emit = TRUE\nSPECIFICATION Spec\nINVARIANT TypeOK\nINVARIANT CheckAndEmit\nCHECK_DEADLOCK FALSE\n" % (
-                sset(plats), sset(sels), sset(spells), sset(interps), sset(namedD), sset(namedP), sset(pkgD), sset(pkgP), sset(creatable), sset(names), sset(paths), name),
+            "  Creatable = %s\n  Names = %s\n  Paths = %s\n  DLists <- MCDLists\n  Family = \"%s\"\n  Emit = TRUE\n  Sels2 = %s\n  HistLen = %d\n"
+            "SPECIFICATION Spec\nINVARIANT TypeOK\nINVARIANT CheckAndEmit\nPROPERTY ReadsDoNotWrite\nCHECK_DEADLOCK FALSE\n" % (
+                sset(plats), sset(sels), sset(spells), sset(interps), sset(namedD), sset(namedP), sset(pkgD), sset(pkgP), sset(creatable), sset(names), sset(paths), name, sset(sels2), histlen),
+            "histlen": histlen,
             # a cfg file cannot hold sequences: the DEFAULTS lists are a definition of a generated module that extends Env
             "module": "---- MODULE %s ----\nEXTENDS Env\nMCDLists == %s\n====\n" % ("%s", sset(dlists)),
             "has_defaults": bool(dlists)}
@@ -80,7 +83,7 @@ def families(tier):
         orders = perms(["BASE", "PATH", "IMP", "NOPE"], 3)      # 41 lists
     fams = [
         # every selection x spelling x platform x interpreter x presence (absent / empty / with a key) of the four environments
-        family_cfg("selection", sels=ALLSELS, spells=("lower", "mixed"), interps=(False, True),
+        family_cfg("selection", sels=ALLSELS, spells=("lower", "mixed"), interps=("absent", "bash"),
                    # absent / empty as a whole / one key -- on p1 a key that is itself empty
                    namedD=["BASE", "PATH"] if th else ["BASE"], namedP=["EMQ", "CH"] if th else ["EMQ"], pkgD=["BASE"],
                    pkgP=["CH", "LD_LIBRARY_PATH"] if th else ["LD_LIBRARY_PATH"]),
@@ -90,29 +93,37 @@ def families(tier):
                    namedD=["BASE"], namedP=["BASE"], pkgD=["BASE"], creatable=("named@default", "named@p1", "pkg@default")),
         # one environment: every key subset x every DEFAULTS list (length 0..3, every order; imported names the environment
         # defines / does not define; the key referring to an imported name listed before / after it)
-        family_cfg("defaults-orders", sels=("NaMe",), interps=(False, True), namedD=KEYS4, creatable=("named@default",), dlists=orders),
+        family_cfg("defaults-orders", sels=("NaMe",), interps=("absent", "bash"), namedD=KEYS4, creatable=("named@default",), dlists=orders),
         # cleared (empty-valued) keys: own key '' that is / is not a launch variable, referenced by another key, imported by DEFAULTS or not
-        family_cfg("defaults-empties", sels=("NaMe",), interps=(False, True), namedD=["PATH", "DEFAULTS"] + EMPT + (["BASE"] if th else []),
+        family_cfg("defaults-empties", sels=("NaMe",), interps=("absent", "bash"), namedD=["PATH", "DEFAULTS"] + EMPT + (["BASE"] if th else []),
                    creatable=("named@default",), dlists=perms(["LD_LIBRARY_PATH", "PATH", "IMP"], 3 if th else 2)),
-        family_cfg("named-empties", sels=("NaMe",), interps=(False, True), namedD=EMPT + ["DEFAULTS"], namedP=EMPT + ["DEFAULTS"],
+        family_cfg("named-empties", sels=("NaMe",), interps=("absent", "bash"), namedD=EMPT + ["DEFAULTS"], namedP=EMPT + ["DEFAULTS"],
                    creatable=("named@default", "named@p1"), dlists=[["LD_LIBRARY_PATH"], ["IMP"]] + ([["IMP", "LD_LIBRARY_PATH"]] if th else [])),
         # named environment on both platforms: every key subset x a few DEFAULTS lists on the default platform x on p1
-        family_cfg("named-keys", sels=("NaMe",), spells=("mixed", "lower") if th else ("lower",), interps=(False, True), namedD=KEYS4, namedP=KEYS4,
+        family_cfg("named-keys", sels=("NaMe",), spells=("mixed", "lower") if th else ("lower",), interps=("absent", "bash"), namedD=KEYS4, namedP=KEYS4,
                    creatable=("named@default", "named@p1"),
                    dlists=[["BASE", "PATH"], ["PATH", "BASE"], ["IMP"]] + ([[], ["PATH", "IMP", "BASE"]] if th else [])),
         # package default environment selected implicitly / explicitly: key subsets on both platforms
-        family_cfg("default-keys", sels=("unset", "environment") + (("empty", "ENVIRONMENT") if th else ()), interps=(False, True),
+        family_cfg("default-keys", sels=("unset", "environment") + (("empty", "ENVIRONMENT") if th else ()), interps=("absent", "bash"),
                    pkgD=["BASE", "PATH", "LD_LIBRARY_PATH", "LIBS", "DEFAULTS"], pkgP=KEYS4 if th else ["BASE", "LD_LIBRARY_PATH", "DEFAULTS"],
                    creatable=("pkg@default", "pkg@p1"),
                    dlists=[["PATH", "IMP"], ["BASE", "PATH"]] + ([["PATH", "LD_LIBRARY_PATH", "NOPE"]] if th else [])),
     ]
     if th:
         # both kinds of environment with keys at once: the other kind must never matter
-        fams.append(family_cfg("cross", sels=("unset", "name", "none"), interps=(True,), namedD=["BASE", "PATH", "DEFAULTS"], namedP=["CH", "DEFAULTS"],
+        fams.append(family_cfg("cross", sels=("unset", "name", "none"), interps=("bash",), namedD=["BASE", "PATH", "DEFAULTS"], namedP=["CH", "DEFAULTS"],
                                pkgD=["BASE", "DEFAULTS"], pkgP=["PATH", "CH"], dlists=[["BASE", "PATH"], ["IMP"]]))
+    # what the component says about an interpreter: nothing / '' / a variable that is '' / bash -- only bash makes it an interpreter
+    fams.append(family_cfg("interpreter", sels=("none", "NaMe", "unset", "environment"), interps=("absent", "empty", "varempty", "bash"),
+                           namedD=["BASE", "PATH"], namedP=["LD_LIBRARY_PATH"], pkgD=["BASE"] + (["PATH"] if th else []),
+                           creatable=("named@default", "named@p1", "pkg@default"), paths=("primitive",)))
+    # histories: two (thorough three) environment constructions, of the component and of a second one, on ONE configuration object
+    fams.append(family_cfg("history", sels=("unset", "environment", "none", "NaMe"), sels2=("unset", "none", "NaMe"), interps=("absent", "bash"),
+                           namedD=["BASE"], pkgD=["BASE", "DEFAULTS"], creatable=("named@default", "pkg@default") + (("pkg@p1",) if th else ()),
+                           pkgP=["PATH"] if th else [], dlists=[["IMP"]], paths=("primitive",), histlen=3 if th else 2))
     # the replicated configuration (what tasks run with) is also built for the name family and a family of its own (quick) and in
     # addition for the named-environment families (thorough); the other families use the configuration as loaded only
-    fams.append(family_cfg("replicated", sels=("NaMe", "unset") + (("none",) if th else ()), interps=(False,), namedD=["BASE", "PATH", "DEFAULTS"],
+    fams.append(family_cfg("replicated", sels=("NaMe", "unset") + (("none",) if th else ()), interps=("absent",), namedD=["BASE", "PATH", "DEFAULTS"],
                            namedP=["PATH", "LD_LIBRARY_PATH", "DEFAULTS"], pkgD=["BASE"], pkgP=["PATH"] if th else [],
                            creatable=("named@default", "named@p1", "pkg@default") + (("pkg@p1",) if th else ()), dlists=[["BASE", "PATH"], ["IMP"]]))
     both = ("names", "replicated") if not th else ("names", "replicated", "named-keys", "named-empties", "defaults-orders", "defaults-empties")
@@ -156,15 +167,30 @@ def build_package(case):
     for p in ("default", "p1", "p2"):
         envs[p]["otherenv"] = decoy("other@" + p)
     command = {"arguments": "x"}
-    if case["interp"]:
+    variables = {}
+    interp = case["interp"]
+    if interp is True or interp == "bash":
         command["interpreter"] = "bash"
     else:
         command["executable"] = "echo"
+        if interp == "empty":
+            command["interpreter"] = ""
+        elif interp == "varempty":
+            # the interpreter comes from a variable that is empty on the platforms that are selected (and bash on the decoy platform)
+            command["interpreter"] = "%(interp)s"
+            variables = {"default": {"global": {"interp": ""}}, "p1": {"global": {"interp": ""}}, "p2": {"global": {"interp": "bash"}}}
     if case["sel"] != "unset":
         command["environment"] = sel_text(case)
-    flowir = {"platforms": ["default", "p1", "p2"], "environments": envs,
-              "components": [{"name": "c", "stage": 0, "command": command},
-                             {"name": "d", "stage": 0, "command": {"executable": "echo", "arguments": "y", "environment": "otherenv"}}]}
+    comps = [{"name": "c", "stage": 0, "command": command},
+             {"name": "d", "stage": 0, "command": {"executable": "echo", "arguments": "y", "environment": "otherenv"}}]
+    if case.get("hist"):
+        c2 = {"executable": "echo", "arguments": "z"}
+        if case["sel2"] != "unset":
+            c2["environment"] = sel_text(dict(case, sel=case["sel2"]))
+        comps.append({"name": "c2", "stage": 0, "command": c2})
+    flowir = {"platforms": ["default", "p1", "p2"], "environments": envs, "components": comps}
+    if variables:
+        flowir["variables"] = variables
     launch = {k: render(v) for k, v in case["launch"].items()}
     sysv = {k: render(v) for k, v in case["sys"].items()}
     return flowir, launch, sysv
@@ -257,6 +283,13 @@ def run_case_path(case, path):
         if isinstance(e, (KeyboardInterrupt, SystemExit)):
             raise
         call_error = e
+    return compare(case, exp, cls, env, loader_error, call_error, launch, sysv, where, rp)
+
+
+def compare(case, exp, cls, env, loader_error, call_error, launch, sysv, where, rp):
+    """the real outcome (environment or errors) against the specification's answer"""
+    FL, conf, E, graph = real_modules()
+    out = []
     if not exp["ok"]:
         if loader_error is None and call_error is None:
             out.append(("error:not-reported:%s" % cls, "%s: no platform defines the selected environment, real environment %r" % (where, env), rp))
@@ -294,8 +327,56 @@ def run_case_path(case, path):
     return out
 
 
+def run_history(case):
+    """Several environment constructions (of c and of the second component c2) on ONE configuration object: every answer must be
+    the pure function of package and launch environment, and the system variables of the configuration must not change."""
+    FL, conf, E, graph = real_modules()
+    flowir, launch, sysv = build_package(case)
+    out = []
+    saved = dict(os.environ)
+    names = [h["comp"] for h in case["hist"]]
+    try:
+        os.environ.clear()
+        os.environ.update(launch)
+        plat = case["plat"]
+        cf = conf.FlowIRExperimentConfiguration(
+            path=None, platform=plat, variable_files=[], system_vars=dict(sysv), is_instance=False, createInstanceFiles=False,
+            primitive=True, concrete=FL.FlowIRConcrete(copy.deepcopy(flowir), plat, {}), updateInstanceFiles=False, validate=False)
+        wg = graph.WorkflowGraph(configuration=cf, platform=plat, primitive=True)
+        doc0 = copy.deepcopy(cf._concrete._flowir)
+        flagged = False
+        for n, h in enumerate(case["hist"]):
+            rp = {"case": case, "step": n}
+            sel = case["sel"] if h["comp"] == "c" else case["sel2"]
+            where = "family %s platform %s history %s step %d: %s selects %r, interpreter %s, envs %s" % (
+                case["family"], plat, " > ".join(names), n + 1, h["comp"], sel_text(dict(case, sel=sel)), case["interp"] if h["comp"] == "c" else "absent",
+                {e: sorted(as_dict(c)) for e, c in as_dict(case["envs"]).items()})
+            env = err = None
+            try:
+                env = wg.environmentForNode("stage0." + h["comp"])
+            except BaseException as e:
+                if isinstance(e, (KeyboardInterrupt, SystemExit)):
+                    raise
+                err = e
+            before = "+".join("%s(%s)" % (x["comp"], x["class"]) for x in case["hist"][:n]) or "fresh"
+            # the loader is not involved here (validate=False): an undefined environment must be reported by the call itself
+            res = compare(case, h["exp"], h["class"], env, None, err, launch, sysv, where, rp)
+            out.extend(("history:after-%s:%s" % (before, key), what, r) for key, what, r in res)
+            if not flagged and dict(cf.system_vars) != sysv:
+                flagged = True
+                out.append(("history:system-variables-modified-by:%s" % h["class"], "%s: the system variables of the configuration changed: %r" % (
+                    where, {k: v for k, v in dict(cf.system_vars).items() if sysv.get(k) != v}), rp))
+            if cf._concrete._flowir != doc0:
+                out.append(("history:document-modified-by:%s" % h["class"], "%s: building an environment changed the stored document" % where, rp))
+                break
+    finally:
+        os.environ.clear()
+        os.environ.update(saved)
+    return out
+
+
 def _worker(cases):
-    return [run_case(c) for c in cases]
+    return [run_history(c) if c.get("hist") else run_case(c) for c in cases]
 
 
 def execute(cases):
@@ -331,7 +412,7 @@ def run(tier):
         return tlc.run_tlc(mod, cfg, workers=workers, timeout=800, coverage=True, specdir=gen, jvm=["-DTLA-Library=" + SPEC],
                            expect_violation=text is not None)
 
-    with concurrent.futures.ThreadPoolExecutor(max_workers=4) as ex:        # the threads only wait for TLC subprocesses
+    with concurrent.futures.ThreadPoolExecutor(max_workers=10) as ex:        # the threads only wait for TLC subprocesses
         runs = list(ex.map(tlc_run, fams))
     cases = []
     for fam, r in zip(fams, runs):
@@ -353,7 +434,10 @@ def run(tier):
             if isinstance(c, dict) and k not in seen:
                 seen.add(k)
                 uniq.append(c)
-        if len(uniq) != r["distinct"]:
+        if fam["histlen"]:
+            if not r["coverage"].get("Ask") or not uniq or any(len(c["hist"]) != fam["histlen"] for c in uniq):
+                raise MachineryError("family %s: action Ask not taken or incomplete histories emitted (%d)" % (fam["name"], len(uniq)))
+        elif len(uniq) != r["distinct"]:
             raise MachineryError("family %s: %d states but %d emitted cases" % (fam["name"], r["distinct"], len(uniq)))
         chk.add_tlc(r)
         cases.extend(uniq)
@@ -364,7 +448,7 @@ def run(tier):
     n_layer = sum(1 for c in cases if c["plat"] == "p1" and len(as_dict(c["envs"])) >= 2)
     n_own = sum(1 for c in cases if c["expected"]["ok"] and c["class"] != "default-launch" and {"PATH", "BASE"} <= set(as_dict(c["expected"]["env"]))
                 and "DEFAULTS" in "".join(",".join(as_dict(x)) for x in as_dict(c["envs"]).values()))
-    n_path = sum(1 for c in cases if c["interp"] and c["expected"]["ok"] and c["class"] in ("named", "none") and "PYTHONPATH" in as_dict(c["expected"]["env"]))
+    n_path = sum(1 for c in cases if c["isinterp"] and c["expected"]["ok"] and c["class"] in ("named", "none") and "PYTHONPATH" in as_dict(c["expected"]["env"]))
     n_cleared = sum(1 for c in cases if c["expected"]["ok"] and "LIBS" in as_dict(c["expected"]["env"])
                     and any("LD_LIBRARY_PATH" in as_dict(x) for x in as_dict(c["envs"]).values()))
     n_emptyenv = sum(1 for c in cases if any(len(as_dict(x)) == 0 for x in as_dict(c["envs"]).values()))
@@ -378,8 +462,10 @@ def run(tier):
                             "cleared_key_referenced": n_cleared, "environment_empty_as_a_whole": n_emptyenv}
     results = execute(cases)
     for case, res in zip(cases, results):
-        chk.evaluated((case["family"], case.get("name"), case["plat"], case["sel"], case["spell"], case["interp"], json.dumps(case["envs"], sort_keys=True)),
-                      n=len(case.get("paths", [1])))
+        chk.evaluated((case["family"], case.get("name"), case["plat"], case["sel"], case["spell"], case["interp"], json.dumps(case["envs"], sort_keys=True),
+                       case.get("sel2"), [h["comp"] for h in case.get("hist") or []]), n=len(case.get("hist") or case.get("paths", [1])))
+        if case.get("hist"):
+            chk.trace_validated()
         for key, what, rp in res:
             chk.violation(key, what, rp)
     for c in cases[7:6000:1500]:
@@ -414,6 +500,6 @@ def replay(path):
     chk = Check(PID, "quick")
     case = d["replay"]["case"]
     chk.evaluated(("replay", json.dumps(case["envs"], sort_keys=True)))
-    for key, what, rp in run_case(case, d["replay"].get("path")):
+    for key, what, rp in (run_history(case) if case.get("hist") else run_case(case, d["replay"].get("path"))):
         chk.violation(key, what, rp)
     return chk.finish()
